@@ -129,7 +129,8 @@ impl PerVisibleAlphabetConstraints {
                 Ok(Some(result))
             }
             Some(SubtypeElements::SingleValue { value, extensible }) => match (value, extensible) {
-                (ASN1Value::String(s), false) => {
+                // (a string of digits and time punctuation is lexed as a time string)
+                (ASN1Value::String(s) | ASN1Value::Time(s), false) => {
                     let mut char_subset = s
                         .clone()
                         .chars()
